@@ -86,6 +86,13 @@ func (m *Manager) AddDependency(name string, dependsOn ...string) error {
 			return fmt.Errorf("no such module: %s", newDep)
 		}
 
+		// A module depending on itself is the shortest cycle; the check below only sees the
+		// dependencies newDep already has, so it has to be rejected explicitly (otherwise every
+		// later dependency listing recurses without end).
+		if newDep == name {
+			return fmt.Errorf("found a circular dependency: %s depends on itself", name)
+		}
+
 		for _, prevDep := range m.DependenciesForModule(newDep) {
 			if prevDep == name {
 				return fmt.Errorf("found a circular dependency: %s depends on %s", newDep, name)
